@@ -11,10 +11,13 @@ VARIABLES sh, l
 LT == INSTANCE LineTrace
 \* ---- which operations must succeed against a conformant KDC -------------------------------------------------------------
 DestroyedBefore(x, i) == \E j \in 1..(i - 1) : x.ops[j].op = "D"
+\* an outage of the KDC is in force at operation i (between an "O" and the next "U"): nothing is demanded of operations that need the KDC then
+\* (what they return must still be right and valid) - and everything again once it is over
+KDCAway(x, i) == \E j \in 1..(i - 1) : x.ops[j].op = "O" /\ \A m \in (j + 1)..(i - 1) : x.ops[m].op # "U"
 ChainOf(x, o) == IF o.op = "GR" THEN x.cfg.chain ELSE 0
 \* a chain of length c needs c + 1 TGS requests; the client follows referrals only up to the bound
 WithinBound(x, o) == ChainOf(x, o) + 1 <= ReferralBound
-MustSucceed(x, i) == LET o == x.ops[i] IN ~DestroyedBefore(x, i) /\ (o.op = "L" \/ (x.known[o.spn] /\ WithinBound(x, o)))
+MustSucceed(x, i) == LET o == x.ops[i] IN ~DestroyedBefore(x, i) /\ ~KDCAway(x, i) /\ (o.op = "L" \/ (x.known[o.spn] /\ WithinBound(x, o)))
 MustFail(x, i) == LET o == x.ops[i] IN DestroyedBefore(x, i) \/ (o.op # "L" /\ (~x.known[o.spn] \/ ChainOf(x, o) + 1 > ReferralBound + 1))
 \* ---- a returned ticket is the right one and valid --------------------------------------------------------------------------
 Match(x, o) == { k \in 1..Len(x.issued) : x.issued[k].tkt = o.tkt /\ x.issued[k].key = o.key }
